@@ -37,8 +37,11 @@ ASSUMPTIONS = [
     "a field with ^^^^ and either a sign token or at least one position left of the point never "
     "overflows (one position is reserved for the sign); $ together with ^^^^ is only checked for "
     "width and digits",
-    "a '#^^^^' style field that has no digit position left after the sign reservation shows no "
-    "mantissa digits (GW quirk): digits not asserted there",
+    "a ^^^^ field that has no mantissa digit position left after the sign reservation ('#^^^^', "
+    "'#.^^^^') shows none of the value's digits: only width, sign, the bare placeholder ('', '0') "
+    "and an exponent e with floor(log10|v|)+1 <= e <= max(floor(log10|v|)+2, 0) are checked (the "
+    "hidden mantissa |v|/10^e must be below 1; which of these the interpreter picks is not pinned "
+    "by the manual)",
     "> 24 digit positions must raise Illegal function call (manual); fields whose character count "
     "exceeds 24 while the digit positions do not are not generated",
     "string values use bytes 32..255 only (control characters are the device layer's business)",
@@ -62,7 +65,7 @@ NUMFIELD = re.compile(r'(\+)?(\*\*\$|\*\*|\$\$)?(#[#,]*)?(?:(\.)(#*))?(\^\^\^\^)
 
 class Field(object):
     __slots__ = ('kind', 'text', 'lead_plus', 'prefix', 'intpos', 'dot', 'decimals', 'sci', 'trail',
-                 'comma', 'stars', 'dollar', 'positions', 'width')
+                 'comma', 'stars', 'dollar', 'positions', 'width', 'sci_digits')
 
 
 def read_format(fmt):
@@ -116,6 +119,11 @@ def read_format(fmt):
             f.dollar = '$' in f.prefix
             f.positions = len(f.intpos) + f.decimals + (2 if f.stars else 0) + (
                 1 if f.prefix == '$$' else 0)
+            # mantissa digit positions of a ^^^^ field: one position left of the point goes to the
+            # sign unless the field has its own sign token (or a $)
+            before = len(f.intpos) + (2 if f.stars else 0) + (1 if f.prefix == '$$' else 0)
+            reserve = 0 if (f.lead_plus or f.trail or f.dollar) else 1
+            f.sci_digits = max(0, before - reserve) + f.decimals
             i = m.end()
         elif c in SAFE or c == ' ':
             lit += c
@@ -225,12 +233,29 @@ def judge_number(res, f, out, b, strict):
         res.fail('using.commas', '%s -> %r: not grouped in threes' % (where, out))
     if len(idigits) > 1 and idigits[0] == '0' and not f.sci:
         res.fail('using.shape', '%s -> %r: leading zeros' % (where, out))
+    if f.sci and f.sci_digits == 0 and v != 0:
+        # the sign reservation leaves no mantissa digit position: nothing of the value's digits is
+        # shown ('#^^^^' -> ' E+01', '#.^^^^' -> '0.E+01' with the 0 a mere placeholder of the
+        # 0.d form), so there is nothing to compare digits with. Checked: placeholder only, and an
+        # exponent for which the hidden mantissa |v|/10^e is below 1 (e >= floor(log10|v|)+1; one
+        # more if rounding carries; values below 1 may also be scaled by 10^0).
+        res.label('using.sci-no-digit-positions')
+        res.nt(True)
+        if idigits not in ('', '0') or fp:
+            res.fail('using.shape', '%s -> %r: digits in a field without digit positions' % (
+                where, out))
+            return
+        e = int(edigits) * (-1 if esign == '-' else 1)
+        k = dectext.exp10_of(v)
+        if not (k + 1 <= e <= max(k + 2, 0)):
+            res.fail('using.sci-exponent', '%s -> %r: exponent %d, expected %d or %d' % (
+                where, out, e, k + 1, k + 2))
+        if eletter != ('D' if len(b) == 8 else 'E'):
+            res.fail('using.expletter', '%s -> %r' % (where, out))
+        return
     if not idigits and not fp:
-        # no digits at all: only the sign-reservation quirk of a ^^^^ field with <= 1 position,
-        # or zero in a ^^^^ field (GW shows E+00 / .E+00)
-        if f.sci and not f.dollar and f.positions <= 1 and not f.lead_plus and not f.trail:
-            res.label('using.sci-no-digits')
-        elif v == 0 and (f.sci or dot):
+        # no digits at all otherwise: only zero in a ^^^^ field (GW shows E+00 / .E+00)
+        if v == 0 and (f.sci or dot):
             # zero: E+00 / .E+00 in a ^^^^ field, a bare point in a field without decimals
             res.label('using.zero-no-digits')
         else:
@@ -514,7 +539,10 @@ def make_value(t, k, shape, d, neg):
 
 
 def strat_numfield():
-    def build(lead, prefix, nint, commas, dot, dec, sci, trail, big):
+    def build(lead, prefix, nint, commas, dot, dec, sci, trail, big, zsci):
+        if zsci:
+            # deliberately: ^^^^ field whose only position goes to the sign
+            return '#.^^^^' if dot else '#^^^^'
         total_pre = {'': 0, '**': 2, '$$': 1, '**$': 2}[prefix]
         if big:
             nint = 25 + nint % 4
@@ -538,7 +566,8 @@ def strat_numfield():
                      st.integers(0, 14), st.lists(st.integers(0, 30), max_size=3),
                      st.booleans(), st.integers(0, 10), st.sampled_from([False, False, True]),
                      st.sampled_from(['', '', '+', '-']),
-                     st.sampled_from([False] * 24 + [True]))
+                     st.sampled_from([False] * 24 + [True]),
+                     st.sampled_from([False] * 19 + [True]))
 
 
 def strat_literal(first_safe):
@@ -605,7 +634,7 @@ def strat_case(draw):
 
 def units(tier):
     return [
-        Unit('using', 'hyp', shards=16, examples={'quick': 250, 'thorough': 40000},
+        Unit('using', 'hyp', shards=16, examples={'quick': 250, 'thorough': 8000},
              strategy=strat_case),
     ]
 
@@ -615,6 +644,10 @@ REGRESSIONS = [
     {'fmt': 'a#,###.##-|x$$##.#^^^^|', 'vals': [['n', '00002084'], ['n', '000000000000a083']]},
     {'fmt': '!|&|\\  \\|', 'vals': [['s', 'hello'], ['s', 'hello'], ['s', 'hello'], ['s', '']]},
     {'fmt': '###.##|', 'vals': [['n', 'a4ff798a']]},
+    # oracle fix: no mantissa digit position left after the sign reservation (not a defect)
+    {'fmt': '#.^^^^a.#a', 'vals': [['n', '00006083']]},
+    {'fmt': '#^^^^a#.^^^^b', 'vals': [['n', '00006083'], ['n', '0000e083'], ['n', '0ad7237b'],
+                                    ['n', '9a991984'], ['n', '000000000000a083']]},
     # fixed 81d93a78: a value whose first digit is just beyond the last decimal is never rounded up:
     # .007 in "#.##" shows 0.00
     {'fmt': '#.##|#.#|#.###|', 'vals': [['n', '42606579'], ['n', '295c0f7d'], ['n', '42606579']]},
